@@ -35,7 +35,7 @@ def nontrivial(world):
 
 
 def run_shard(ctx):
-    n = 60 if ctx.tier == 'quick' else 4000
+    n = 150 if ctx.tier == 'quick' else 6000
     ctx.set_budget(80 if ctx.tier == 'quick' else 1100)
     run_histories(ctx, PROP, strategy(ctx.tier), checkers, nontrivial, n)
 
